@@ -257,7 +257,7 @@ fn one_record(c: &mut Ctx, fam: &str, idx: u64, rng: &mut Rng, per_type: &mut BT
 
 pub fn run(c: &mut Ctx) {
     let fam = "records";
-    let total = c.total(400_000, 8_000_000);
+    let total = c.total(400_000, 80_000_000);
     let mut per_type: BTreeMap<String, u64> = BTreeMap::new();
     for idx in c.cases(fam, total) {
         if c.out_of_time() {
